@@ -21,7 +21,7 @@ F1 == [id |-> "none", gt |-> 1, geom |-> 1, props |-> << P("k", V("s", "x")) >>]
 \* (numbers at the ends of the 64-bit ranges: -2^62 - 1 needs all 64 bits of its zigzag form)
 F2 == [id |-> "7", gt |-> 3, geom |-> 2, props |-> << P("j", V("b", "1")), P("k", V("n", "5")), P("m", V("n", "-4611686018427387905")) >>]
 F3 == [id |-> "18446744073709551615", gt |-> 0, geom |-> 3, props |-> << P("j", V("n", "-3")), P("m", V("s", "x")) >>]
-F0 == [id |-> "3", gt |-> 2, geom |-> 4, props |-> <<>>]          \* a feature without any property
+F0 == [id |-> "0", gt |-> 2, geom |-> 4, props |-> <<>>]          \* a feature without any property, with the EXPLICIT id 0
 Pool == IF PoolSize = 2 THEN <<F0, F2>> ELSE IF PoolSize = 3 THEN <<F0, F1, F2>> ELSE <<F0, F1, F2, F3>>
 FeatSeqs == {<<>>} \cup { <<Pool[i]>> : i \in 1..Len(Pool) }
             \cup (IF MaxFeats >= 2 THEN { <<Pool[i], Pool[j]>> : i \in 1..Len(Pool), j \in 1..Len(Pool) } ELSE { <<Pool[1], Pool[Len(Pool)]>> })
